@@ -16,6 +16,9 @@ Definition recon_guarded : bool := true.
 (* reconciliationCall (installed in the SUBSCRIBED chain): is the implicit RECONCILE sent on every
    SUBSCRIBED event, unconditionally? *)
 Definition reconcile_every_subscribed : bool := true.
+(* updateTaskStatus: is the refresh of the agent id / executor id of the roster task done only when
+   the status carries the field (a reconciliation answer need not)? *)
+Definition status_refresh_guarded : bool := true.
 (* doKillTasks (KillTasks, Cleanup): do the tasks of the set that are not ACTIVE get a KILL call too? *)
 Definition kill_inactive : bool := true.
 (* the states in which Mesos considers a task alive (mesos.proto: non-terminal, reachable) *)
